@@ -149,6 +149,18 @@ Proof.
   rewrite <- E, rev_involutive. f_equal. apply fields_one; assumption.
 Qed.
 
+(* the same for strings.Fields proper, when neither word contains a Unicode-space sequence
+   (the ASCII blank between them cannot be part of one) *)
+Lemma fields_go_two a b : a <> [] -> b <> [] -> nospace a -> nospace b ->
+  no_usp a = true -> no_usp b = true ->
+  fields_go (a ++ " "%char :: b) = [a; b].
+Proof.
+  intros Ha Hb Na Nb Ua Ub. rewrite fields_go_two_words by assumption. apply fields_two; assumption.
+Qed.
+
+Lemma itoa_no_usp z : no_usp (itoa z) = true.
+Proof. apply no_usp_ascii_F, itoa_ascii. Qed.
+
 (* ================================================================== 3. parameters *)
 
 Definition embed_param (p : a_param) : kv :=
@@ -284,10 +296,27 @@ Proof.
   repeat (rewrite <- app_assoc; cbn [app]). reflexivity.
 Qed.
 
+Lemma wf_via_shape_inv v : wf_via_shape v = true ->
+  safe1 (av_name v) = true /\ safe1 (av_version v) = true /\ safe1 (av_transport v) = true /\
+  safe1 (av_host v) = true /\ wf_port (av_port v) = true /\ forallb wf_param (av_params v) = true.
+Proof. unfold wf_via_shape, noslash. rewrite !andb_true_iff. tauto. Qed.
+
+(* [wf_via] = the token shape + no Unicode-space sequence inside the four tokens that
+   strings.Fields sees *)
+Lemma wf_via_weaken v : wf_via v = true -> wf_via_shape v = true.
+Proof. unfold wf_via. intros H. apply andb_true_iff in H. exact (proj1 H). Qed.
+Lemma wf_via_no_usp v : wf_via v = true ->
+  no_usp (av_name v) = true /\ no_usp (av_version v) = true /\ no_usp (av_transport v) = true /\
+  no_usp (av_host v) = true.
+Proof. unfold wf_via, via_no_usp. rewrite !andb_true_iff. tauto. Qed.
 Lemma wf_via_inv v : wf_via v = true ->
   safe1 (av_name v) = true /\ safe1 (av_version v) = true /\ safe1 (av_transport v) = true /\
   safe1 (av_host v) = true /\ wf_port (av_port v) = true /\ forallb wf_param (av_params v) = true.
-Proof. unfold wf_via, noslash. rewrite !andb_true_iff. tauto. Qed.
+Proof. intros H. apply wf_via_shape_inv, wf_via_weaken, H. Qed.
+Lemma forallb_wf_via_weaken l : forallb wf_via l = true -> forallb wf_via_shape l = true.
+Proof.
+  intros H. rewrite forallb_forall in *. intros v Hv. apply wf_via_weaken, H, Hv.
+Qed.
 
 Lemma rp_port_notin d p : d <> ":"%char -> is_digit d = false -> d <> "-"%char -> ~ In d (rp_port p).
 Proof.
@@ -307,9 +336,9 @@ Qed.
 Lemma via_head_notin d v :
   safe_char d = false -> d <> "/"%char -> d <> " "%char -> d <> ":"%char ->
   is_digit d = false -> d <> "-"%char ->
-  wf_via v = true -> ~ In d (via_head v).
+  wf_via_shape v = true -> ~ In d (via_head v).
 Proof.
-  intros Hs H1 H2 H3 H4 H5 H. apply wf_via_inv in H. destruct H as (Hn & Hv & Ht & Hh & _ & _).
+  intros Hs H1 H2 H3 H4 H5 H. apply wf_via_shape_inv in H. destruct H as (Hn & Hv & Ht & Hh & _ & _).
   apply safe1_inv in Hn, Hv, Ht, Hh.
   destruct Hn as [_ Hn], Hv as [_ Hv], Ht as [_ Ht], Hh as [_ Hh].
   unfold via_head, via_proto, via_sentby. intros Hin.
@@ -324,23 +353,23 @@ Proof.
     exact (rp_port_notin d _ H3 H4 H5 Hin).
 Qed.
 
-Lemma via_head_no_semi v : wf_via v = true -> ~ In ";"%char (via_head v).
+Lemma via_head_no_semi v : wf_via_shape v = true -> ~ In ";"%char (via_head v).
 Proof. apply via_head_notin; try discriminate; reflexivity. Qed.
-Lemma via_head_no_comma v : wf_via v = true -> ~ In ","%char (via_head v).
+Lemma via_head_no_comma v : wf_via_shape v = true -> ~ In ","%char (via_head v).
 Proof. apply via_head_notin; try discriminate; reflexivity. Qed.
 
-Lemma rp_via1_no_comma v : wf_via v = true -> ~ In ","%char (rp_via1 v).
+Lemma rp_via1_no_comma v : wf_via_shape v = true -> ~ In ","%char (rp_via1 v).
 Proof.
   intros H. rewrite rp_via1_shape. intros Hin. apply in_app_or in Hin. destruct Hin as [Hin|Hin].
   - exact (via_head_no_comma v H Hin).
-  - apply wf_via_inv in H. destruct H as (_ & _ & _ & _ & _ & Hp).
+  - apply wf_via_shape_inv in H. destruct H as (_ & _ & _ & _ & _ & Hp).
     exact (rp_params_no_comma _ Hp Hin).
 Qed.
 
-Lemma via_proto_split v : wf_via v = true ->
+Lemma via_proto_split v : wf_via_shape v = true ->
   split_byte "/"%char (via_proto v) = [av_name v; av_version v; av_transport v].
 Proof.
-  intros H. apply wf_via_inv in H. destruct H as (Hn & Hv & Ht & _).
+  intros H. apply wf_via_shape_inv in H. destruct H as (Hn & Hv & Ht & _).
   apply safe1_inv in Hn, Hv, Ht. destruct Hn as [_ Hn], Hv as [_ Hv], Ht as [_ Ht].
   unfold via_proto.
   rewrite split_byte_app by (apply safe_no_slash; exact Hn).
@@ -348,11 +377,11 @@ Proof.
   rewrite split_byte_single by (apply safe_no_slash; exact Ht). reflexivity.
 Qed.
 
-Lemma via_sentby_split v : wf_via v = true ->
+Lemma via_sentby_split v : wf_via_shape v = true ->
   split_byte ":"%char (via_sentby v) =
   match av_port v with Some z => [av_host v; itoa z] | None => [av_host v] end.
 Proof.
-  intros H. apply wf_via_inv in H. destruct H as (_ & _ & _ & Hh & _).
+  intros H. apply wf_via_shape_inv in H. destruct H as (_ & _ & _ & Hh & _).
   apply safe1_inv in Hh. destruct Hh as [_ Hh]. apply safe_no_colon in Hh.
   unfold via_sentby. destruct (av_port v) as [z|]; cbn [rp_port].
   - rewrite split_byte_app by exact Hh.
@@ -360,12 +389,13 @@ Proof.
   - rewrite app_nil_r. apply split_byte_single. exact Hh.
 Qed.
 
-Lemma via_head_fields v : wf_via v = true -> fields (via_head v) = [via_proto v; via_sentby v].
+Lemma via_head_words v : wf_via_shape v = true ->
+  via_proto v <> [] /\ via_sentby v <> [] /\ nospace (via_proto v) /\ nospace (via_sentby v).
 Proof.
-  intros H. apply wf_via_inv in H. destruct H as (Hn & Hv & Ht & Hh & _).
+  intros H. apply wf_via_shape_inv in H. destruct H as (Hn & Hv & Ht & Hh & _).
   apply safe1_inv in Hn, Hv, Ht, Hh.
   destruct Hn as [Nn Hn], Hv as [_ Hv], Ht as [_ Ht], Hh as [Nh Hh].
-  unfold via_head. apply fields_two.
+  split; [|split; [|split]].
   - unfold via_proto. destruct (av_name v); [contradiction|discriminate].
   - unfold via_sentby. destruct (av_host v); [contradiction|discriminate].
   - unfold via_proto.
@@ -376,15 +406,39 @@ Proof.
   - unfold via_sentby. apply nospace_app; [apply safe_nospace; exact Hh|apply rp_port_nospace].
 Qed.
 
+(* the ASCII split (what the judges use) *)
+Lemma via_head_fields v : wf_via_shape v = true -> fields (via_head v) = [via_proto v; via_sentby v].
+Proof.
+  intros H. destruct (via_head_words v H) as (A & B & C & D). unfold via_head. apply fields_two; assumption.
+Qed.
+
+Lemma rp_port_ascii p : forallb is_ascii (rp_port p) = true.
+Proof.
+  destruct p as [z|]; [|reflexivity]. cbn [rp_port forallb]. apply andb_true_iff. split; [reflexivity|].
+  apply forallb_forall. intros c Hc. pose proof (itoa_ascii z) as F. rewrite Forall_forall in F. exact (F c Hc).
+Qed.
+
+(* strings.Fields (what parseViaParam uses) *)
+Lemma via_head_fields_go v : wf_via v = true -> fields_go (via_head v) = [via_proto v; via_sentby v].
+Proof.
+  intros H. destruct (via_head_words v (wf_via_weaken v H)) as (A & B & C & D).
+  destruct (wf_via_no_usp v H) as (Un & Uv & Ut & Uh).
+  unfold via_head. apply fields_go_two; try assumption.
+  - unfold via_proto. apply no_usp_app_ascii; [exact Un|reflexivity|].
+    apply no_usp_app_ascii; [exact Uv|reflexivity|exact Ut].
+  - unfold via_sentby. apply no_usp_app_ascii_r; [exact Uh|apply rp_port_ascii].
+Qed.
+
 (* ---- decode (item 2, one entry) ---- *)
 Theorem parse_via_param_rp v : wf_via v = true -> parse_via_param (rp_via1 v) = Ok (embed_via v).
 Proof.
   intros H. pose proof (wf_via_inv v H) as (_ & _ & _ & _ & Hport & Hps).
+  pose proof (wf_via_weaken v H) as Hs.
   unfold parse_via_param. rewrite rp_via1_shape.
   rewrite split_semi_params by (try apply via_head_no_semi; assumption).
-  rewrite via_head_fields by exact H.
-  rewrite via_proto_split by exact H.
-  rewrite via_sentby_split by exact H.
+  rewrite via_head_fields_go by exact H.
+  rewrite via_proto_split by exact Hs.
+  rewrite via_sentby_split by exact Hs.
   rewrite map_kv_split_params by exact Hps.
   unfold embed_via. destruct (av_port v) as [z|].
   - cbn [wf_port] in Hport. rewrite atoi_itoa_port by exact Hport. reflexivity.
@@ -392,9 +446,9 @@ Proof.
 Qed.
 
 (* ---- encode (item 3, one entry): byte-identical, no default port is added ---- *)
-Theorem via_param_print_embed v : wf_via v = true -> via_param_print (embed_via v) = rp_via1 v.
+Theorem via_param_print_embed v : wf_via_shape v = true -> via_param_print (embed_via v) = rp_via1 v.
 Proof.
-  intros H. pose proof (wf_via_inv v H) as (_ & _ & _ & _ & Hport & Hps).
+  intros H. pose proof (wf_via_shape_inv v H) as (_ & _ & _ & _ & Hport & Hps).
   unfold via_param_print, rp_via1, embed_via.
   cbn [v_name v_version v_transport v_host v_port v_params].
   rewrite print_params_embed by exact Hps.
@@ -406,9 +460,9 @@ Proof.
 Qed.
 
 (* ---- accessors (item 4) ---- *)
-Theorem obs_via_param_embed v : wf_via v = true -> obs_via_param (embed_via v) = x_via1 v.
+Theorem obs_via_param_embed v : wf_via_shape v = true -> obs_via_param (embed_via v) = x_via1 v.
 Proof.
-  intros H. pose proof (wf_via_inv v H) as (_ & _ & _ & _ & Hport & _).
+  intros H. pose proof (wf_via_shape_inv v H) as (_ & _ & _ & _ & Hport & _).
   unfold obs_via_param, x_via1, via_get_branch, via_get_received, via_get_rport, via_get_port, x_opt.
   unfold embed_via. cbn [v_name v_version v_transport v_host v_port v_params].
   rewrite e_kvs_embed, !kv_get_embed.
@@ -419,14 +473,14 @@ Proof.
 Qed.
 
 (* individual accessors, for the record *)
-Corollary via_get_port_embed v : wf_via v = true ->
+Corollary via_get_port_embed v : wf_via_shape v = true ->
   via_get_port (embed_via v) =
   match av_port v with
   | Some z => z
   | None => if beq (av_transport v) (s2b "TLS") then 5061 else 5060
   end.
 Proof.
-  intros H. pose proof (wf_via_inv v H) as (_ & _ & _ & _ & Hport & _).
+  intros H. pose proof (wf_via_shape_inv v H) as (_ & _ & _ & _ & Hport & _).
   unfold via_get_port, embed_via. cbn [v_port v_transport].
   destruct (av_port v) as [z|]; [|reflexivity].
   cbn [wf_port] in Hport. assert (E : (z =? 0) = false) by lia. rewrite E. reflexivity.
@@ -458,13 +512,13 @@ Proof.
   - apply parse_all_map. intros v Hv. apply parse_via_param_rp. apply H. exact Hv.
   - destruct l; [contradiction|discriminate].
   - apply Forall_forall. intros s Hs. apply in_map_iff in Hs. destruct Hs as (v & <- & Hv).
-    apply rp_via1_no_comma. apply H. exact Hv.
+    apply rp_via1_no_comma. apply wf_via_weaken. apply H. exact Hv.
 Qed.
 
 Theorem via_print_embed l : forallb wf_via l = true -> via_print (map embed_via l) = rp_via l.
 Proof.
   intros H. rewrite forallb_forall in H. unfold via_print, rp_via. f_equal.
-  rewrite map_map. apply map_ext_in. intros v Hv. apply via_param_print_embed. apply H. exact Hv.
+  rewrite map_map. apply map_ext_in. intros v Hv. apply via_param_print_embed. apply wf_via_weaken. apply H. exact Hv.
 Qed.
 
 Theorem obs_via_embed l : forallb wf_via l = true ->
@@ -473,7 +527,7 @@ Proof.
   intros H. unfold e_list. rewrite map_length. f_equal.
   induction l as [|v l IH]; [reflexivity|].
   cbn [forallb] in H. apply andb_true_iff in H. destruct H as [Hv Hl].
-  cbn [map flat_map]. rewrite obs_via_param_embed by exact Hv. rewrite IH by exact Hl. reflexivity.
+  cbn [map flat_map]. rewrite obs_via_param_embed by exact (wf_via_weaken _ Hv). rewrite IH by exact Hl. reflexivity.
 Qed.
 
 (* print (parse text) = text and the re-encoding is stable *)
@@ -520,10 +574,14 @@ Definition embed_cseq (c : a_cseq) : cseq := {| cs_seq := ac_seq c; cs_method :=
 Lemma wf_cseq_inv c : wf_cseq c = true ->
   (0 <=? ac_seq c) && (ac_seq c <=? 4294967295) = true /\ ac_method c <> [] /\ safe (ac_method c) = true.
 Proof.
-  unfold wf_cseq. intros H. apply andb_true_iff in H. destruct H as [H1 H2].
+  unfold wf_cseq. intros H. apply andb_true_iff in H. destruct H as [H _].
+  apply andb_true_iff in H. destruct H as [H1 H2].
   apply safe1_inv in H2. tauto.
 Qed.
+Lemma wf_cseq_no_usp c : wf_cseq c = true -> no_usp (ac_method c) = true.
+Proof. unfold wf_cseq. intros H. apply andb_true_iff in H. exact (proj2 H). Qed.
 
+(* the ASCII split (what the judges use) *)
 Lemma rp_cseq_fields c : wf_cseq c = true -> fields (rp_cseq c) = [itoa (ac_seq c); ac_method c].
 Proof.
   intros H. apply wf_cseq_inv in H. destruct H as (_ & Hm & Hs).
@@ -533,10 +591,16 @@ Proof.
   - apply itoa_nospace.
   - apply safe_nospace. exact Hs.
 Qed.
+(* strings.Fields (what ParseCSeq uses) *)
+Lemma rp_cseq_fields_go c : wf_cseq c = true -> fields_go (rp_cseq c) = [itoa (ac_seq c); ac_method c].
+Proof.
+  intros H. unfold rp_cseq. rewrite fields_go_two_words; [apply rp_cseq_fields, H|apply itoa_no_usp|].
+  apply wf_cseq_no_usp, H.
+Qed.
 
 Theorem parse_cseq_rp c : wf_cseq c = true -> parse_cseq (rp_cseq c) = Ok (embed_cseq c).
 Proof.
-  intros H. unfold parse_cseq. rewrite rp_cseq_fields by exact H.
+  intros H. unfold parse_cseq. rewrite rp_cseq_fields_go by exact H.
   apply wf_cseq_inv in H. destruct H as (Hz & _).
   rewrite atoi_itoa_seq by exact Hz. reflexivity.
 Qed.
@@ -655,6 +719,20 @@ Proof. vm_compute. repeat split. Qed.
 (* the hypothesis l <> [] is necessary: the empty list prints as "" which does not decode *)
 Example via_empty_rejected : parse_via (rp_via []) = Err.
 Proof. reflexivity. Qed.
+
+(* the Unicode-space conjuncts of wf_via / wf_cseq are necessary: a host / a method that passes
+   [safe1] but contains U+00A0 (C2 A0) is split by strings.Fields, and the decoder rejects the
+   reference text *)
+Definition ex_via_nbsp : a_via :=
+  {| av_name := s2b "SIP"; av_version := s2b "2.0"; av_transport := s2b "UDP";
+     av_host := s2b "a" ++ [ascii_of_nat 194; ascii_of_nat 160] ++ s2b "b"; av_port := None; av_params := [] |}.
+Example via_usp_necessary :
+  wf_via_shape ex_via_nbsp = true /\ wf_via ex_via_nbsp = false /\ parse_via (rp_via [ex_via_nbsp]) = Err.
+Proof. vm_compute. repeat split. Qed.
+Example cseq_usp_necessary :
+  let c := {| ac_seq := 1; ac_method := s2b "A" ++ [ascii_of_nat 194; ascii_of_nat 160] ++ s2b "B" |} in
+  safe1 (ac_method c) = true /\ wf_cseq c = false /\ parse_cseq (rp_cseq c) = Err.
+Proof. vm_compute. repeat split. Qed.
 
 (* ================================================================== assumptions *)
 Print Assumptions parse_via_param_rp.
